@@ -373,6 +373,103 @@ def _handler_calls(prog, fn):
     return [c for c in fn.all_insts() if c.op == "call" and "icallee" in c.d and len(c.ops) == 4 and (c.ops[1][0] in ("c", "i"))]
 
 
+def rule_MP15(rep, prog):
+    rid = rep.rule("C14-MP15", "the stream source's suspension is mirrored by stream->source_running: wherever the library suspends the stream's readiness source it "
+                   "records source_running = false, and wherever it resumes it for more readiness events it records source_running = true (the final resume that lets a "
+                   "cancelled source tear down is exempt) - the flag is the only thing that keeps suspends and resumes balanced", floor=3)
+    n = 0
+    for fn in prog.all_functions():
+        for c in fn.all_insts():
+            if c.op != "call" or c.callee not in ("dispatch_suspend", "dispatch_resume"):
+                continue
+            a = fn.inst(c.ops[0])
+            while a is not None and a.op == "bitcast":
+                a = fn.inst(a.ops[0])
+            if a is None:
+                continue
+            is_src = (a.op == "load" and "source" in prog.fields(a) and "source_running" not in prog.fields(a)) or (a.op == "call" and a.callee == "_dispatch_stream_source")
+            if not is_src:
+                continue
+            if c.callee == "dispatch_resume" and calls_named(fn, "dispatch_source_cancel"):
+                continue  # teardown: cancel + the resume that lets the cancellation be processed
+            n += 1
+            rep.saw(fn)
+            want_v = 0 if c.callee == "dispatch_suspend" else 1
+            sts = [st for st in fn.all_insts() if st.op == "store" and "source_running" in prog.fields(st) and st.ops[0][0] == "c" and st.ops[0][1] == want_v]
+            ok = any(st.block.id == c.block.id or fn.postdominates(st, c) or fn.dominates(st, c) and fn.postdominates(c, st) for st in sts)
+            rep.require(rid, ok, c.loc, fn.name, "source-running-not-updated:%s:%s" % (c.callee, fn.name),
+                        "%s calls %s on the stream's readiness source without recording source_running = %s: the next balance decision (suspend when the stream runs out "
+                        "of operations / resume when an operation has to wait) is taken on a stale flag, the source ends up suspended twice or resumed twice, and a "
+                        "parked operation is never woken (or the source is released while suspended)" % (fn.name, c.callee, "false" if want_v == 0 else "true"),
+                        sample={"site": c.loc, "fn": fn.name})
+    if n < 3:
+        rep.unknown(rid, "fewer than 3 suspend/resume sites of the stream source found (%d)" % n)
+
+
+def rule_OD16(rep, prog):
+    rid = rep.rule("C14-OD16", "cleanup after the handlers: every queued handler invocation holds a reference on the fd_entry (which keeps the close queue - and with it "
+                   "the channel's cleanup handler - suspended): _dispatch_operation_deliver_data retains op->fd_entry before it submits the handler block, and the block "
+                   "releases it only after the client handler returned", floor=2)
+    fn = prog.fn("_dispatch_operation_deliver_data")
+    rep.saw(fn)
+    subs = [c for c in fn.all_insts() if c.op == "call" and c.callee in ("dispatch_async", "dispatch_async_f", "_dispatch_io_async")]
+    if not subs:
+        rep.unknown(rid, "_dispatch_operation_deliver_data: submission of the handler block not found")
+        return
+    rets = [c for c in calls_named(fn, "_dispatch_fd_entry_retain") if fld_load(prog, fn, c.ops[0], "fd_entry") is not None]
+    for c in subs:
+        rep.require(rid, any(fn.dominates(r, c) for r in rets), c.loc, fn.name, "handler-block-without-fd-entry-reference",
+                    "_dispatch_operation_deliver_data submits the handler block without holding a reference on op->fd_entry for it: once the operation itself is disposed "
+                    "the close queue resumes while data / done invocations are still queued, so the channel's cleanup handler runs before (or concurrently with) "
+                    "its I/O handlers", sample={"submit": c.loc})
+    blocks = [f for f in prog.all_functions() if f.name.startswith("___dispatch_operation_deliver_data_block_invoke")]
+    n = 0
+    for b in blocks:
+        hcalls = [c for c in b.all_insts() if c.op == "call" and not c.callee and c.d.get("icallee") and len(c.ops) >= 3]
+        rels = calls_named(b, "_dispatch_fd_entry_release")
+        for h in hcalls:
+            n += 1
+            rep.saw(b)
+            rep.require(rid, any(b.postdominates(r, h) for r in rels), h.loc, b.name, "fd-entry-released-before-handler-returns",
+                        "the handler block does not release the fd_entry reference after the client handler returned (it is missing, or dropped before the call): the "
+                        "cleanup handler is no longer ordered after this invocation", sample={"handler_call": h.loc})
+    if n < 1:
+        rep.unknown(rid, "no client handler invocation found in the deliver_data block")
+
+
+def rule_BD17(rep, prog):
+    from .C13 import edge_relations
+    rid = rep.rule("C14-BD17", "a used-up request buffer is always recycled: _dispatch_operation_deliver_data returns early to keep buffering (below the low-water mark, "
+                   "before looking at the direction) only when the buffer still has room, buf_len < buf_siz STRICTLY - a full buffer goes on to be handed over "
+                   "/ trimmed, otherwise the next perform issues a zero-length read or write and takes its 0 result for end of file", floor=1)
+    fn = prog.fn("_dispatch_operation_deliver_data")
+    rep.saw(fn)
+    first = next(iter(fn.all_insts()))
+    res = paths.walk(fn, first, lambda i: False,
+                     avoid=lambda i: (i.op == "store" and "buf_len" in prog.fields(i)) or (i.op == "load" and "direction" in prog.fields(i)))
+    def fl(o, f):
+        i = fn.inst(list(o)) if o[0] == "i" else None
+        return i is not None and i.op == "load" and f in prog.fields(i)
+    n = 0
+    for kind, inst, cx, path in res:
+        if kind != "exit":
+            continue
+        n += 1
+        strict = any(p_ == "ult" and fl(a, "buf_len") and fl(b, "buf_siz") for p_, a, b in edge_relations(fn, cx))
+        for cid, tv in cx.truth.items():
+            t = fn.insts[cid]
+            if t.op == "icmp" and t.d["pred"] in ("eq", "ne") and tv == (t.d["pred"] == "ne") and \
+                    {True} == {fl(tuple(t.ops[0][:2]), "buf_len") or fl(tuple(t.ops[0][:2]), "buf_siz")} and \
+                    {True} == {fl(tuple(t.ops[1][:2]), "buf_len") or fl(tuple(t.ops[1][:2]), "buf_siz")}:
+                strict = True
+        rep.require(rid, strict, inst.loc, fn.name, "full-buffer-kept",
+                    "_dispatch_operation_deliver_data returns to keep buffering on a path (%s) where buf_len may equal buf_siz: the full buffer is neither delivered nor "
+                    "recycled, the next perform asks the kernel for 0 bytes and treats the 0 result as EOF - a read ends early / a write reports completion although "
+                    "only the first buffer reached the descriptor" % ">".join(map(str, path)), sample={"path": path})
+    if n < 1:
+        rep.unknown(rid, "no early keep-buffering return found in _dispatch_operation_deliver_data")
+
+
 def rule_TB10(rep, prog):
     rid = rep.rule("C14-TB10", "what an operation that completes early hands back: a read that failed reports no data, a write that did NOT fail reports no unwritten "
                    "data, a write that failed (e.g. the channel was stopped) reports all of its data as unwritten - at every early-completion site alike; a read "
@@ -493,6 +590,12 @@ def run(rep, tier="quick", srcdir=None, only=None):
         rule_TB10(rep, prog)
     if want("C14-OD11"):
         rule_OD11(rep, prog)
+    if want("C14-MP15"):
+        rule_MP15(rep, prog)
+    if want("C14-OD16"):
+        rule_OD16(rep, prog)
+    if want("C14-BD17"):
+        rule_BD17(rep, prog)
     if want("C14-OD12"):
         rule_OD12(rep, prog)
     if want("C14-MP13"):
@@ -521,7 +624,7 @@ def run(rep, tier="quick", srcdir=None, only=None):
 
 
 MANIFEST = {
-    "technique": "value-flow / dominating-condition rules on io.c's operation bookkeeping (LLVM IR), sibling agreement of result-code switches + ring-buffer fill discipline (slot tested empty before store, index advanced only past a filled slot), who-may-write rule on the operation's parameter snapshot",
+    "technique": "value-flow / dominating-condition rules on io.c's operation bookkeeping (LLVM IR), sibling agreement of result-code switches + ring-buffer fill discipline (slot tested empty before store, index advanced only past a filled slot), who-may-write rule on the operation's parameter snapshot + flag/effect mirroring of the stream source suspension, reference bracketing of queued handler invocations, path rule with normalised order facts on the keep-buffering return",
     "level": "narrow structural clauses only (each a necessary condition): high-water buffer sizing, kernel pointer/length window, progress accounting, offset of the "
              "reported unwritten remainder, stream-source suspend condition, result-code coverage of both consumers. Byte conservation under every kernel chunking, "
              "handler ordering and done-exactly-once across the ~40 block-literal functions chained through queues are NOT decided",
